@@ -138,6 +138,14 @@ Theorem c12_faults_referenced_exist :
 Proof. exact faults_referenced_exist. Qed.
 Print Assumptions c12_faults_referenced_exist.
 
+(* --- arity: what the code accepts is what the docstrings document *)
+Theorem c12_arity_documented :
+  forall name ns m i,
+    resolve root_table name = RResolved ns m -> find_info ns m method_info = Some i ->
+    arity_as_documented i = true.
+Proof. exact arity_documented. Qed.
+Print Assumptions c12_arity_documented.
+
 (* --- multicall *)
 Theorem c12_multicall_sequential :
   forall (St R Call Cb Env : Type)
